@@ -43,6 +43,7 @@ where
         .spawn(move || {
             set_current(rt2.clone(), tid);
             rt2.wait_for_baton(tid);
+            rt2.log(tid, "begin".into());
             let r = std::panic::catch_unwind(std::panic::AssertUnwindSafe(f));
             *r2.lock().unwrap() = Some(r);
             rt2.finish(tid);
